@@ -6,6 +6,7 @@ package asm
 // very definition object the module lists under that ID.
 
 import (
+	"regexp"
 	"fmt"
 	"strings"
 	"testing"
@@ -78,6 +79,112 @@ func TestVerifC17Asm(t *testing.T) {
 				}()
 			}
 		}
+	}
+	// sparse numbering: every definition of the text is listed by the module, every reference is a listed definition
+	for _, ids := range [][]int{{1, 2}, {0, 1, 3}, {0, 2, 4, 5}, {0, 1, 2, 3}, {3, 1}, {7}, {0, 5, 6, 2}, {1, 2, 3, 4, 5}} {
+		cases++
+		var sb strings.Builder
+		var ops []string
+		for _, id := range ids {
+			fmt.Fprintf(&sb, "!%d = !{i32 %d}\n", id, id)
+			ops = append(ops, fmt.Sprintf("!%d", id))
+		}
+		fmt.Fprintf(&sb, "!x = !{%s}\n", strings.Join(ops, ", "))
+		func() {
+			defer func() {
+				if e := recover(); e != nil {
+					fail("ids %v: panic %v", ids, e)
+				}
+			}()
+			m, err := ParseString("s.ll", sb.String())
+			if err != nil {
+				fail("ids %v: %v", ids, err)
+				return
+			}
+			listed := map[int64]bool{}
+			for _, d := range m.MetadataDefs {
+				listed[d.ID()] = true
+			}
+			for _, id := range ids {
+				if !listed[int64(id)] {
+					fail("ids %v: the definition !%d of the text is not listed in Module.MetadataDefs", ids, id)
+				}
+			}
+			if len(m.MetadataDefs) != len(ids) {
+				fail("ids %v: the module lists %d definitions", ids, len(m.MetadataDefs))
+			}
+			out := m.String()
+			if _, err := ParseString("s2.ll", out); err != nil {
+				fail("ids %v: the printed module does not parse (a reference without definition?): %v", ids, err)
+			}
+		}()
+	}
+	// references inside specialized nodes: every `field: !N` of the text is printed back as `field: !N`
+	refRe := regexp.MustCompile(`([a-zA-Z]+): (![0-9]+)`)
+	for _, line := range []string{
+		`!10 = !DICompositeType(tag: DW_TAG_array_type, name: "t", scope: !1, file: !2, line: 3, baseType: !3, size: 32, elements: !4, templateParams: !6, identifier: "id", discriminator: !7, dataLocation: !8, associated: !9, allocated: !11, rank: !12, annotations: !13)`,
+		`!10 = distinct !DISubprogram(name: "f", linkageName: "f", scope: !1, file: !2, line: 1, type: !3, scopeLine: 1, containingType: !5, spFlags: DISPFlagDefinition, templateParams: !6, declaration: !7, retainedNodes: !8, thrownTypes: !9, annotations: !13)`,
+		`!10 = !DIDerivedType(tag: DW_TAG_member, name: "m", scope: !1, file: !2, line: 2, baseType: !3, size: 32, offset: 32, extraData: !5, annotations: !13)`,
+		`!10 = distinct !DICompileUnit(language: DW_LANG_C99, file: !2, producer: "p", isOptimized: false, runtimeVersion: 0, emissionKind: FullDebug, enums: !4, retainedTypes: !5, globals: !6, imports: !7, macros: !8)`,
+		`!10 = !DILocalVariable(name: "v", arg: 1, scope: !1, file: !2, line: 1, type: !3, annotations: !13)`,
+		`!10 = distinct !DIGlobalVariable(name: "g", linkageName: "g", scope: !1, file: !2, line: 1, type: !3, isLocal: false, isDefinition: true, declaration: !5, templateParams: !6, annotations: !13)`,
+		`!10 = !DISubrange(count: !1, lowerBound: !3, upperBound: !5, stride: !6)`,
+		`!10 = !DIImportedEntity(tag: DW_TAG_imported_module, name: "n", scope: !1, entity: !3, file: !2, line: 1, elements: !4)`,
+		`!10 = !DILexicalBlock(scope: !1, file: !2, line: 1, column: 2)`,
+		`!10 = !DITemplateTypeParameter(name: "T", type: !3)`,
+		`!10 = !DITemplateValueParameter(tag: DW_TAG_template_value_parameter, name: "V", type: !3, value: !5)`,
+		`!10 = !DICommonBlock(scope: !1, declaration: !5, name: "c", file: !2, line: 1)`,
+		`!10 = !DIObjCProperty(name: "p", file: !2, line: 1, setter: "s", getter: "g", attributes: 1, type: !3)`,
+		`!10 = !DIStringType(name: "s", stringLength: !1, stringLengthExpression: !3, stringLocationExpression: !5, size: 32)`,
+		`!10 = !DINamespace(name: "n", scope: !1)`,
+		`!10 = !DIModule(scope: !1, name: "m", file: !2, line: 1)`,
+		`!10 = !DISubroutineType(types: !4)`,
+		`!10 = !DILabel(scope: !1, name: "l", file: !2, line: 1)`,
+		`!10 = !DILexicalBlockFile(scope: !1, file: !2, discriminator: 0)`,
+		`!10 = !DIMacroFile(line: 1, file: !2, nodes: !4)`,
+		`!10 = !DILocation(line: 1, column: 2, scope: !1)`,
+	} {
+		cases++
+		src := line + "\n!1 = !DIFile(filename: \"a\", directory: \"b\")\n!2 = !DIFile(filename: \"c\", directory: \"d\")\n"
+		for _, id := range []int{3, 4, 5, 6, 7, 8, 9, 11, 12, 13, 14} {
+			src += fmt.Sprintf("!%d = !{i32 %d}\n", id, id)
+		}
+		func() {
+			defer func() {
+				if e := recover(); e != nil {
+					fail("node %s: panic %v", strings.SplitN(line, "(", 2)[0], e)
+				}
+			}()
+			m, err := ParseString("n.ll", src)
+			if err != nil {
+				fail("node %s: %v", strings.SplitN(line, "(", 2)[0], err)
+				return
+			}
+			printed := ""
+			for _, l := range strings.Split(m.String(), "\n") {
+				if strings.HasPrefix(l, "!10 = ") {
+					printed = l
+				}
+			}
+			want := map[string]bool{}
+			for _, mm := range refRe.FindAllStringSubmatch(line, -1) {
+				want[mm[1]+": "+mm[2]] = true
+			}
+			got := map[string]bool{}
+			for _, mm := range refRe.FindAllStringSubmatch(printed, -1) {
+				got[mm[1]+": "+mm[2]] = true
+			}
+			for k := range want {
+				if !got[k] {
+					fail("node %s: the reference `%s` of the text is not printed back: %s", strings.SplitN(line, "(", 2)[0], k, printed)
+				}
+			}
+			for k := range got {
+				if !want[k] {
+					fail("node %s: the printed node has a reference `%s` the text does not have: %s", strings.SplitN(line, "(", 2)[0], k, printed)
+				}
+			}
+		}()
 	}
 	fmt.Printf("REPLAY-SAMPLE %d combinations of three definitions of !x\n", cases)
 	fmt.Printf("REPLAY-CASES %d\n", cases)
